@@ -201,3 +201,207 @@ Proof.
   destruct (qeqb (sprec t) 0); [reflexivity|]. cbn [res_bind]. rewrite src_data_size_is_model. cbn [res_bind].
   unfold np_repeat. now rewrite Nat2Z.id.
 Qed.
+
+(* ---------------------------------------------------------------- models/main.py: predict_*_all, predict_*_avg *)
+
+Lemma zrange_of_nat n : zrange (Z.of_nat n) = map Z.of_nat (seq 0 n).
+Proof. unfold zrange. now rewrite Nat2Z.id. Qed.
+
+Lemma holder_get_nat h i : holder_get h (Z.of_nat i) = get_theta h i.
+Proof.
+  unfold holder_get, get_theta. rewrite Nat2Z.id.
+  destruct (Z.of_nat i >? Z.of_nat (length (h_thetas h)) - 1)%Z eqn:E; cbn [orb].
+  - assert (H : (length (h_thetas h) <= i)%nat) by lia. apply nth_error_None in H. now rewrite H.
+  - replace (Z.of_nat i <? 0)%Z with false by lia. reflexivity.
+Qed.
+
+Lemma py_index_nat n i : (i < n)%nat -> py_index n (Z.of_nat i) = Some i.
+Proof.
+  intros H. unfold py_index. replace (0 <=? Z.of_nat i)%Z with true by lia.
+  replace (Z.of_nat i <? Z.of_nat n)%Z with true by lia. now rewrite Nat2Z.id.
+Qed.
+
+Lemma res_bind_assoc {A B C} (x : result A) (f : A -> result B) (g : B -> result C) :
+  (dor b <- (dor a <- x; f a); g b) = (dor a <- x; dor b <- f a; g b).
+Proof. destruct x; reflexivity. Qed.
+
+Lemma np_set_row_app (done : list (list Qc)) z rest v : length v = length z ->
+  np_set_row (done ++ z :: rest) (Z.of_nat (length done)) v = Ok (done ++ v :: rest).
+Proof.
+  intros Hv. unfold np_set_row. rewrite py_index_nat by (rewrite app_length; cbn [length]; lia).
+  rewrite app_nth2 by lia. rewrite Nat.sub_diag. cbn [nth]. rewrite Hv, Nat.eqb_refl.
+  rewrite firstn_app, firstn_all, Nat.sub_diag. cbn [firstn]. rewrite app_nil_r.
+  rewrite skipn_app, skipn_all2 by lia. replace (S (length done) - length done)%nat with 1%nat by lia. reflexivity.
+Qed.
+
+Lemma np_row_app (done : list (list Qc)) v rest : np_row (done ++ v :: rest) (Z.of_nat (length done)) = Ok v.
+Proof.
+  unfold np_row. rewrite py_index_nat by (rewrite app_length; cbn [length]; lia).
+  rewrite app_nth2 by lia. now rewrite Nat.sub_diag.
+Qed.
+
+Section Main.
+Variable orc : oracle.
+Variable pm : kind -> theta -> pydata -> result vec.
+Variable scr : screen.
+Variable h : holder.
+Variable k : kind.
+(* the Theta method in use agrees with the model on this screen for the stored samples (the translated methods do:
+   py_theta_predict below) *)
+Hypothesis Hpm : forall t, In t (h_thetas h) -> pm k t (pydata_of scr) = theta_predict orc k t scr.
+
+Let sz := scr_size scr.
+Let f := predict_one orc k h scr.
+
+Lemma f_length i v : f i = Ok v -> length v = sz.
+Proof.
+  unfold f, predict_one, res_bind. destruct (get_theta h i); [|discriminate]. apply theta_predict_length.
+Qed.
+
+(* holder_get, then the method: one sample's prediction as the model's predict_one *)
+Lemma get_then_predict {B} i (g : vec -> result B) :
+  (dor t <- holder_get h (Z.of_nat i); dor v <- pm k t (pydata_of scr); g v) = (dor v <- f i; g v).
+Proof.
+  rewrite holder_get_nat. unfold f, predict_one. rewrite res_bind_assoc.
+  destruct (get_theta h i) as [t|] eqn:Et; cbn [res_bind]; [|reflexivity].
+  rewrite Hpm; [reflexivity|]. unfold get_theta in Et.
+  destruct (nth_error (h_thetas h) i) as [t'|] eqn:En; [|discriminate]. inversion Et; subst. eapply nth_error_In; eassumption.
+Qed.
+
+(* --- the row-store loop of predict_viability_all / predict_mean_all *)
+Lemma set_rows_fold (body : mat -> Z -> result mat) :
+  (forall res i, body res (Z.of_nat i)
+                 = dor v <- f i; dor res' <- np_set_row res (Z.of_nat i) v; dor r <- np_row res' (Z.of_nat i);
+                   if vec_has_nan r then Err 7%Z else Ok res') ->
+  forall m done,
+    res_fold body (map Z.of_nat (seq (length done) m)) (done ++ repeat (repeat 0 sz) m)
+    = dor rs <- res_map_all f (seq (length done) m); Ok (done ++ rs).
+Proof.
+  intros Hbody. induction m as [|m IH]; intros done; cbn [seq map res_fold res_map_all repeat].
+  - cbn [res_bind]. reflexivity.
+  - rewrite Hbody. destruct (f (length done)) as [v|e] eqn:Ef; cbn [res_bind]; [|reflexivity].
+    pose proof (f_length _ v Ef) as Hv.
+    rewrite np_set_row_app by now rewrite repeat_length. cbn [res_bind].
+    rewrite np_row_app. cbn [res_bind]. unfold vec_has_nan.
+    replace (done ++ v :: repeat (repeat 0 sz) m) with ((done ++ [v]) ++ repeat (repeat 0 sz) m) by now rewrite <- app_assoc.
+    replace (S (length done)) with (length (done ++ [v])) by (rewrite app_length; cbn [length]; lia).
+    cbn [res_bind]. rewrite IH.
+    destruct (res_map_all f (seq (length (done ++ [v])) m)); cbn [res_bind]; [now rewrite <- app_assoc | reflexivity].
+Qed.
+
+Definition all_rows_src : result mat :=
+  dor r1 <- src_data_size (pydata_of scr);
+  let result : mat := np_zeros2 (Z.of_nat (h_n h)) r1 in
+  dor result <- res_fold (fun (result : mat) it =>
+      dor r3 <- holder_get h it;
+      dor r4 <- pm k r3 (pydata_of scr);
+      dor result <- np_set_row result it r4;
+      dor r5 <- np_row result it;
+      if vec_has_nan r5 then Err 7%Z else Ok result) (zrange (Z.of_nat (h_n h))) result;
+  Ok result.
+
+Lemma all_rows_src_is_model : k <> KVar -> all_rows_src = predict_all orc k h scr.
+Proof.
+  intros Hk. unfold all_rows_src, predict_all. rewrite src_data_size_is_model. cbn [res_bind].
+  unfold np_zeros2. rewrite !Nat2Z.id, zrange_of_nat. fold sz.
+  rewrite (set_rows_fold _ (fun res i => get_then_predict i _) (h_n h) []). fold f. cbn [length app].
+  rewrite res_bind_assoc. destruct (res_map_all f (seq 0 (h_n h))); cbn [res_bind app]; [|reflexivity].
+  destruct k; try reflexivity. congruence.
+Qed.
+
+(* --- the append loop of predict_variance_all *)
+Lemma append_fold (body : list vec -> Z -> result (list vec)) :
+  (forall res i, body res (Z.of_nat i)
+                 = dor v <- f i; dor r4 <- src_data_size (pydata_of scr);
+                   if negb (vec_size v =? r4)%Z then Err 8%Z
+                   else if vec_has_nan v then Err 7%Z else Ok (res ++ [v])) ->
+  forall l done, res_fold body (map Z.of_nat l) done = dor rs <- res_map_all f l; Ok (done ++ rs).
+Proof.
+  intros Hbody. induction l as [|i l IH]; intros done; cbn [map res_fold res_map_all].
+  - cbn [res_bind]. now rewrite app_nil_r.
+  - rewrite Hbody. destruct (f i) as [v|e] eqn:Ef; cbn [res_bind]; [|reflexivity].
+    rewrite src_data_size_is_model. cbn [res_bind]. unfold vec_size. rewrite (f_length i v Ef). fold sz.
+    rewrite Z.eqb_refl. cbn [negb]. unfold vec_has_nan. cbn [res_bind]. rewrite IH.
+    destruct (res_map_all f l); cbn [res_bind]; [now rewrite <- app_assoc | reflexivity].
+Qed.
+
+Definition variance_all_src : result mat :=
+  dor results <- res_fold (fun (results : list vec) it =>
+      dor r2 <- holder_get h it;
+      dor r3 <- pm k r2 (pydata_of scr);
+      dor r4 <- src_data_size (pydata_of scr);
+      if negb (vec_size r3 =? r4)%Z then Err 8%Z
+      else if vec_has_nan r3 then Err 7%Z else Ok (results ++ [r3])) (zrange (Z.of_nat (h_n h))) [];
+  dor r5 <- np_stack results; Ok r5.
+
+Lemma variance_all_src_is_model : k = KVar -> variance_all_src = predict_all orc k h scr.
+Proof.
+  intros Hk. unfold variance_all_src, predict_all. rewrite zrange_of_nat.
+  rewrite (append_fold _ (fun res i => get_then_predict i _)). fold f. rewrite res_bind_assoc.
+  destruct (res_map_all f (seq 0 (h_n h))) as [rows|e] eqn:E; cbn [res_bind app]; [|reflexivity].
+  rewrite Hk. destruct (res_map_all_spec _ 0%nat [] _ _ E) as [Hlen _]. rewrite seq_length in Hlen.
+  assert (Hall : Forall (fun v => length v = sz) rows).
+  { eapply res_map_all_Forall; [exact E|]. intros i v _. apply f_length. }
+  destruct rows as [|r rest]; cbn [length] in Hlen; rewrite <- Hlen; [reflexivity|].
+  unfold np_stack. apply Forall_cons_iff in Hall as [Hr Hrest].
+  replace (forallb (fun x => Nat.eqb (length x) (length r)) rest) with true; [reflexivity|].
+  symmetry. apply forallb_forall. intros x Hx. rewrite Forall_forall in Hrest. rewrite (Hrest x Hx), Hr. apply Nat.eqb_refl.
+Qed.
+
+(* --- the accumulation loop of predict_mean_avg / predict_viability_avg *)
+Lemma avg_fold (body : vec -> Z -> result vec) :
+  (forall acc i, body acc (Z.of_nat i) = dor v <- f i; if vec_has_nan v then Err 7%Z else Ok (vadd acc v)) ->
+  forall l acc, res_fold body (map Z.of_nat l) acc = avg_loop f l acc.
+Proof.
+  intros Hbody. induction l as [|i l IH]; intros acc; cbn [map res_fold avg_loop]; [reflexivity|].
+  rewrite Hbody. destruct (f i) as [v|e]; cbn [res_bind]; [|reflexivity]. unfold vec_has_nan. apply IH.
+Qed.
+
+Definition avg_src : result vec :=
+  dor r1 <- src_data_size (pydata_of scr);
+  let result : vec := np_zeros1 r1 in
+  dor result <- res_fold (fun (result : vec) it =>
+      dor r3 <- holder_get h it;
+      dor r4 <- pm k r3 (pydata_of scr);
+      if vec_has_nan r4 then Err 7%Z else Ok (vadd result r4)) (zrange (Z.of_nat (h_n h))) result;
+  dor r5 <- np_div_int result (Z.of_nat (h_n h)); Ok r5.
+
+Lemma avg_src_is_model : avg_src = predict_avg orc k h scr.
+Proof.
+  unfold avg_src, predict_avg. rewrite src_data_size_is_model. cbn [res_bind].
+  unfold np_zeros1. rewrite Nat2Z.id, zrange_of_nat. fold sz.
+  rewrite (avg_fold _ (fun acc i => get_then_predict i _)). fold f.
+  destruct (h_n h) as [|n] eqn:En.
+  - cbn [seq avg_loop res_bind]. unfold np_div_int. cbn [Z.of_nat Z.eqb]. destruct sz; reflexivity.
+  - destruct (avg_loop f (seq 0 (S n)) (repeat 0 sz)) as [acc|e]; cbn [res_bind]; [|reflexivity].
+    unfold np_div_int. replace (Z.of_nat (S n) =? 0)%Z with false by lia. reflexivity.
+Qed.
+
+End Main.
+
+(* the functions of models/main.py, for ANY implementation pm of the three Theta methods that agrees with the model on the
+   stored samples *)
+Theorem src_predict_viability_all_is_model orc pm scr h :
+  (forall t, In t (h_thetas h) -> pm KViab t (pydata_of scr) = theta_predict orc KViab t scr) ->
+  src_predict_viability_all pm (pydata_of scr) h = predict_all orc KViab h scr.
+Proof. intros H. rewrite <- (all_rows_src_is_model orc pm scr h KViab H) by discriminate. reflexivity. Qed.
+
+Theorem src_predict_mean_all_is_model orc pm scr h :
+  (forall t, In t (h_thetas h) -> pm KMean t (pydata_of scr) = theta_predict orc KMean t scr) ->
+  src_predict_mean_all pm (pydata_of scr) h = predict_all orc KMean h scr.
+Proof. intros H. rewrite <- (all_rows_src_is_model orc pm scr h KMean H) by discriminate. reflexivity. Qed.
+
+Theorem src_predict_variance_all_is_model orc pm scr h :
+  (forall t, In t (h_thetas h) -> pm KVar t (pydata_of scr) = theta_predict orc KVar t scr) ->
+  src_predict_variance_all pm (pydata_of scr) h = predict_all orc KVar h scr.
+Proof. intros H. rewrite <- (variance_all_src_is_model orc pm scr h KVar H eq_refl). reflexivity. Qed.
+
+Theorem src_predict_mean_avg_is_model orc pm scr h :
+  (forall t, In t (h_thetas h) -> pm KMean t (pydata_of scr) = theta_predict orc KMean t scr) ->
+  src_predict_mean_avg pm (pydata_of scr) h = predict_avg orc KMean h scr.
+Proof. intros H. rewrite <- (avg_src_is_model orc pm scr h KMean H). reflexivity. Qed.
+
+Theorem src_predict_viability_avg_is_model orc pm scr h :
+  (forall t, In t (h_thetas h) -> pm KViab t (pydata_of scr) = theta_predict orc KViab t scr) ->
+  src_predict_viability_avg pm (pydata_of scr) h = predict_avg orc KViab h scr.
+Proof. intros H. rewrite <- (avg_src_is_model orc pm scr h KViab H). reflexivity. Qed.
